@@ -237,6 +237,11 @@ func (r *readIdleHandler) withReadLock(fn func()) {
 func (r *readIdleHandler) HandleActive(ctx ActiveContext) {
 	// cache context.
 	r.withLock(func() {
+		// the channel may have been closed from another goroutine while the active event was still
+		// on its way: the inactive event has passed (or will pass) without finding a timer to stop.
+		if !ctx.Channel().IsActive() {
+			return
+		}
 		r.handlerCtx = ctx
 		r.lastReadTime = time.Now()
 		r.readTimer = time.AfterFunc(r.idleTime, r.onReadTimeout)
@@ -331,6 +336,10 @@ func (w *writeIdleHandler) HandleActive(ctx ActiveContext) {
 
 	// cache context
 	w.withLock(func() {
+		// see readIdleHandler.HandleActive: do not arm a timer nobody will stop.
+		if !ctx.Channel().IsActive() {
+			return
+		}
 		w.handlerCtx = ctx
 		w.lastWriteTime = time.Now()
 		w.writeTimer = time.AfterFunc(w.idleTime, w.onWriteTimeout)
